@@ -19,7 +19,7 @@ def decQName (s : String) : QName :=
 
 def encQName (q : QName) : String := "::".intercalate q.comps
 
-def qstr (s : String) : String := "\"" ++ Sexp.escapeString s ++ "\""
+def qstrS (s : String) : String := "\"" ++ Sexp.escapeString s ++ "\""
 
 mutual
 partial def decTyJson : Sexp → Option TyJson
@@ -49,13 +49,13 @@ partial def encTyJson : TyJson → String
   | .string => "string"
   | .set e => s!"(set {encTyJson e})"
   | .record attrs => "(record" ++ encAttrsJ attrs ++ ")"
-  | .entity n => s!"(entity {qstr (encQName n)})"
-  | .entityOrCommon n => s!"(eoc {qstr (encQName n)})"
-  | .ext n => s!"(ext {qstr n})"
-  | .commonRef n => s!"(cref {qstr (encQName n)})"
+  | .entity n => s!"(entity {qstrS (encQName n)})"
+  | .entityOrCommon n => s!"(eoc {qstrS (encQName n)})"
+  | .ext n => s!"(ext {qstrS n})"
+  | .commonRef n => s!"(cref {qstrS (encQName n)})"
 partial def encAttrsJ : AttrsJ → String
   | .nil => ""
-  | .cons k req t rest => s!" ({qstr k} {if req then "req" else "opt"} {encTyJson t})" ++ encAttrsJ rest
+  | .cons k req t rest => s!" ({qstrS k} {if req then "req" else "opt"} {encTyJson t})" ++ encAttrsJ rest
 end
 
 def decTok : Sexp → Option Tok
@@ -73,8 +73,8 @@ def decTok : Sexp → Option Tok
   | _ => none
 
 def encTok : Tok → String
-  | .id s => s!"(id {qstr s})"
-  | .str s => s!"(str {qstr s})"
+  | .id s => s!"(id {qstrS s})"
+  | .str s => s!"(str {qstrS s})"
   | .dcolon => "dcolon" | .lt => "lt" | .gt => "gt" | .lb => "lb" | .rb => "rb"
   | .colon => "colon" | .comma => "comma" | .q => "q"
   | .other a => a
@@ -90,9 +90,9 @@ def encResolved (env : Env) (r : Option Resolved) : String :=
   match r with
   | none => "(undefined)"
   | some r => match classify env r with
-    | .builtin n => s!"(builtin {qstr n})"
-    | .common q => s!"(common {qstr (encQName q)})"
-    | .entity q => s!"(entity {qstr (encQName q)})"
+    | .builtin n => s!"(builtin {qstrS n})"
+    | .common q => s!"(common {qstrS (encQName q)})"
+    | .entity q => s!"(entity {qstrS (encQName q)})"
     | _ => "(bad-op)"
 
 def handleSchemaSyntax (x : Sexp) : Option String :=
